@@ -423,7 +423,15 @@ def observe_schema(schema) -> dict:
     except Exception as exc:  # noqa: BLE001
         trs = None
         rules = type(exc).__name__
-    return {"offered": offered, "errors": errors, "stat": stat, "iterated": iterated, "transitions": trs, "rules": rules}
+    maps = []
+    for path in schema.raw_schema.get("paths", {}):
+        mm = schema[path]
+        keys = list(mm)
+        assert len(mm) == len(keys)
+        # generation/hypothesis/builder.py:507 (the default unexpected methods, HEAD left out)
+        unspecified = sorted({"get", "put", "post", "delete", "options", "patch", "trace"} - set(mm))
+        maps.append((path, keys, unspecified))
+    return {"offered": offered, "errors": errors, "stat": stat, "iterated": iterated, "transitions": trs, "rules": rules, "maps": maps}
 
 
 def _sym(v):
@@ -450,10 +458,15 @@ def canon_model(v) -> dict:
     }
 
 
+def canon_maps(maps) -> list:
+    return [(pstr(p), [pstr(k) for k in keys], sorted(pstr(m) for m in uns)) for p, keys, uns in maps]
+
+
 def canon_impl(obs) -> dict:
     if isinstance(obs, tuple):
         return {"rejected": (obs[1], obs[2])}
-    return {"offered": obs["offered"], "stat": tuple(obs["stat"]), "iterated": obs["iterated"], "transitions": obs["transitions"]}
+    return {"offered": obs["offered"], "stat": tuple(obs["stat"]), "iterated": obs["iterated"], "transitions": obs["transitions"],
+            "maps": obs["maps"]}
 
 
 # ----------------------------------------------------------------------------------------
@@ -559,6 +572,15 @@ def check_property(chk, raw, mdoc, calls, obs, where: str):
     if obs["offered"] != want:
         chk.fail(f"{where}: offered operations differ from the selected ones", case, {"offered": obs["offered"], "selected": want})
         return
+    defined = {(p, k) for p, k, r, z in ops}
+    for p, keys, unspecified in obs.get("maps", []):
+        for m in unspecified:
+            if (p, m) in defined:
+                chk.fail(
+                    f"{where}: the coverage phase would send {m.upper()} {p} as an unspecified method although that operation is "
+                    f"defined ({'selected' if (p, m) in want else 'NOT selected'})", case, {"schema[path]": keys, "unspecified": unspecified},
+                    region=None if len({k.lower() for k, _r, _z in dict(mdoc)[p]}) == len(dict(mdoc)[p]) else "case_variant_keys",
+                )
     independent = all(oracle_selected(calls, p, k, r) == oracle_selected(calls, p, k, z) for p, k, r, z in ops)
     if obs["stat"][0] != len(ops):
         chk.fail(f"{where}: total operation count differs from the number of operations", case, obs["stat"])
@@ -615,7 +637,7 @@ def compare_batch(chk, raw, chains, stage: str):
             cases.append(clist([c_call(c, funcs) for c in calls], "call"))
             built = build_schema(raw, calls, funcs)
             impl.append(built if isinstance(built, tuple) else observe_schema(built))
-        exprs.append(f"(let d := {cdoc} in map (run_case d) {clist(cases, '(list call)')})")
+        exprs.append(f"(let d := {cdoc} in (doc_maps fs_empty d, map (run_case d) {clist(cases, '(list call)')}))")
     return mdoc, impl, exprs
 
 
@@ -630,7 +652,8 @@ def run_correspondence(chk, work: list[tuple[dict, list]], stage: str):
     pos = 0
     n = 0
     for raw, mdoc, chains, impl, ne in index:
-        flat = [v for part in model[pos : pos + ne] for v in part]
+        flat = [v for part in model[pos : pos + ne] for v in part[1]]
+        m_maps = canon_maps(model[pos][0]) if ne else []
         pos += ne
         assert len(flat) == len(chains)
         for calls, obs, mv in zip(chains, impl, flat):
@@ -638,6 +661,8 @@ def run_correspondence(chk, work: list[tuple[dict, list]], stage: str):
             case = {"doc": raw["paths"], "calls": calls}
             ci, cm = canon_impl(obs), canon_model(mv)
             rejected = "rejected" in ci
+            if not rejected:
+                cm["maps"] = m_maps
             chk.seen(case, nontrivial=not rejected and 0 < len(ci["offered"]) < ci["stat"][0])
             chk.count(f"{stage}:calls={len(calls)}")
             chk.count(f"{stage}:" + ("rejected:" + ci["rejected"][0] if rejected else "sm=" + ("raises" if ci["transitions"] is None else "ok")))
@@ -872,8 +897,10 @@ def engine_responder(item):
     return 200, [("Content-Type", "application/json")], b"{}"
 
 
-def run_engine_on(schema, rec, phases, seed, max_examples=3):
+def run_engine_on(schema, rec, phases, seed, max_examples=3, negative=False):
     import hypothesis
+
+    from schemathesis.generation import GenerationConfig, GenerationMode
 
     from schemathesis.engine import from_schema
     from schemathesis.engine.config import EngineConfig, ExecutionConfig, NetworkConfig
@@ -882,7 +909,10 @@ def run_engine_on(schema, rec, phases, seed, max_examples=3):
     schema.configure(base_url=rec.url)
     settings = hypothesis.settings(max_examples=max_examples, deadline=None, database=None, derandomize=False,
                                    suppress_health_check=list(hypothesis.HealthCheck), stateful_step_count=4)
-    exe = ExecutionConfig(phases=[PhaseName.from_str(p) for p in phases], hypothesis_settings=settings, seed=seed, workers_num=2)
+    gen = GenerationConfig(modes=GenerationMode.all()) if negative else GenerationConfig()
+    schema.generation_config = gen
+    exe = ExecutionConfig(phases=[PhaseName.from_str(p) for p in phases], hypothesis_settings=settings, seed=seed, workers_num=2,
+                          generation=gen)
     config = EngineConfig(execution=exe, network=NetworkConfig(headers={}))
     rec.take()
     evs = [type(ev).__name__ for ev in from_schema(schema, config=config).execute()]
@@ -914,7 +944,16 @@ def run_engine_stage(chk, n: int):
     try:
         configs = list(ENGINE_CALLS)
         rng.shuffle(configs)
-        for calls in (configs * (1 + n // len(configs)))[:n]:
+        # filters that exclude some methods of a path while others of the same path stay selected (by method, tag,
+        # operationId, name, deprecated, expression): always run first, with the coverage phase in negative mode
+        partial = [c for c in ENGINE_CALLS if c and 0 < len({(p, k) for p, k, r, z in ops if oracle_selected(c, p, k, z) and p == "/users/{id}"}) < 3]
+        rng.shuffle(partial)
+        n_forced = min(len(partial), max(5, n // 3))
+        plan = [(c, ["coverage"] if i % 2 == 0 else ["coverage", "fuzzing", "stateful"], True) for i, c in enumerate(partial[:n_forced])]
+        for calls in (configs * (1 + n // len(configs)))[: max(0, n - len(plan))]:
+            phases = rng.choice([["examples", "coverage", "fuzzing", "stateful"], ["fuzzing", "stateful"], ["coverage", "stateful"], ["examples", "fuzzing"], ["coverage"]])
+            plan.append((calls, phases, rng.random() < 0.6))
+        for calls, phases, negative in plan:
             via_cli = rng.random() < 0.35 and cli_expressible(calls)
             funcs = Funcs()
             if via_cli:
@@ -922,13 +961,12 @@ def run_engine_stage(chk, n: int):
                 schema.filter_set = cli_filter_arguments(calls).into()
             else:
                 schema = build_schema(raw, calls, funcs)
-            phases = rng.choice([["examples", "coverage", "fuzzing", "stateful"], ["fuzzing", "stateful"], ["coverage", "stateful"], ["examples", "fuzzing"]])
             seed = rng.randrange(1, 10**6)
-            case = {"engine": {"calls": calls, "phases": phases, "seed": seed, "via_cli": via_cli}}
-            evs, got = run_engine_on(schema, rec, phases, seed)
+            case = {"engine": {"calls": calls, "phases": phases, "seed": seed, "via_cli": via_cli, "negative": negative}}
+            evs, got = run_engine_on(schema, rec, phases, seed, negative=negative)
             runs += 1
             chk.seen(case, True)
-            chk.count("engine:phases=" + "+".join(phases))
+            chk.count("engine:phases=" + "+".join(phases) + (":modes=all" if negative else ":modes=positive"))
             want = {(p, k) for p, k, r, z in ops if oracle_selected(calls, p, k, z)}
             hit: dict = {}
             for item in got:
@@ -1102,11 +1140,13 @@ def run_cli_stage(chk, n: int):
         cases.append((raw, mdoc, cli))
         exprs.append(f"run_cli {c_doc(mdoc)} {c_cli(cli)}")
     model = core.coq_eval(IMPORTS, exprs, shard=40)
+    maps_of = {id(raw): canon_maps(v) for (raw, mdoc), v in
+               zip(cdocs, core.coq_eval(IMPORTS, [f"doc_maps fs_empty {c_doc(mdoc)}" for _raw, mdoc in cdocs]))}
     for (raw, mdoc, cli), impl, mv in zip(cases, impls, model):
         case = {"doc": raw["paths"], "cli": cli}
         mv = _sym(mv)
         ci = "usage-error" if isinstance(impl, tuple) else canon_impl(impl)
-        cm = "usage-error" if mv is None else canon_model(mv[1])
+        cm = "usage-error" if mv is None else {**canon_model(mv[1]), "maps": maps_of[id(raw)]}
         chk.seen(case, not isinstance(impl, tuple))
         chk.count("cli:" + ("usage-error:" + impl[1] if isinstance(impl, tuple) else "ok"))
         if ci != cm:
@@ -1180,7 +1220,10 @@ def run(chk: core.Check):
     chk.stages["pytest_lazy_and_direct"] = {"configurations": len(configs)}
 
     # ---- oracle search: short real engine runs
-    chk.stages["engine_search"] = run_engine_stage(chk, (12 if quick else 120) * (10 if chk.broken else 1))
+    chk.stages["engine_search"] = run_engine_stage(chk, (12 if quick else 90) * (10 if chk.broken else 1))
+
+    # real traffic to an unselected operation is the most telling failing input: keep it at the head of the replay file
+    chk.failures.sort(key=lambda f: 0 if str(f["what"]).startswith("engine sent") else 1)
 
     for f in chk.findings:
         chk.known(f, witness_fails(f["witness"]))
@@ -1199,6 +1242,9 @@ def witness_fails(w) -> bool:
     obs = observe_schema(schema)
     if w["kind"] == "stat_ops":
         return obs["stat"][1] != len(obs["offered"])
+    if w["kind"] == "unspecified":
+        defined = {(p, k) for p, item in w["paths"].items() for k in item if k in HTTP}
+        return any((p, m) in defined for p, keys, uns in obs["maps"] for m in uns)
     if w["kind"] == "stat_links":
         return obs["transitions"] is not None and obs["stat"][3] != len(obs["transitions"])
     raise ValueError(w)
@@ -1230,7 +1276,7 @@ def replay(payload) -> int:
                     schema.filter_set = cli_filter_arguments(e["calls"]).into()
                 else:
                     schema = build_schema(raw, e["calls"], Funcs())
-                evs, got = run_engine_on(schema, rec, e["phases"], e["seed"])
+                evs, got = run_engine_on(schema, rec, e["phases"], e["seed"], negative=bool(e.get("negative")))
             finally:
                 rec.close()
             hit: dict = {}
